@@ -189,7 +189,7 @@ package field
 //@   props C01 C15
 //@   split len(src) in 32..64 else
 //@   panics len(src) < 32 || len(src) > 64
-//@   ensures val(fe) == fp(os2ip(src)) && result == fe
+//@   ensures val(fe) == fp(os2ipv(src)) && result == fe
 //@   modifies fe.m
 //@
 //@ func (*Element).Invert
